@@ -28,7 +28,12 @@ const (
 	slack  = 400 // ms: scheduling slack granted to the return time
 )
 
-func (r *run) descrRes() []byte  { return knxnet.AllocAndPack(r.g.Service(3)) }
+func (r *run) descrRes() []byte {
+	if r.g.R.Intn(2) == 0 {
+		return r.g.DescrResFrameWithUnknown() // carries blocks the library copies verbatim
+	}
+	return knxnet.AllocAndPack(r.g.Service(3))
+}
 func (r *run) searchRes() []byte { return knxnet.AllocAndPack(r.g.Service(1)) }
 
 // script builds a responder script for a call with the given timeout: matching responses, other
@@ -38,6 +43,9 @@ func (r *run) script(timeout int, match func() []byte, other func() []byte) []ar
 	early := func() (int, bool) {
 		if timeout < margin+20 {
 			return 0, false
+		}
+		if r.g.R.Intn(4) == 0 {
+			return 0, true // at once: before the caller has even begun to wait
 		}
 		return r.g.R.Intn(timeout - margin), true
 	}
@@ -70,6 +78,12 @@ func (r *run) script(timeout int, match func() []byte, other func() []byte) []ar
 		foreign := r.g.R.Intn(8) == 0
 		if at, ok := early(); ok && r.g.R.Intn(3) != 0 {
 			add(at, data, foreign)
+			if r.g.R.Intn(3) == 0 {
+				// another datagram right behind it: the receiver reuses its array while the first
+				// result is still in the caller's hands
+				add(at, r.g.DescrResFrameWithUnknown(), false)
+				add(at, knxnet.AllocAndPack(r.g.Service(-1)), false)
+			}
 		} else {
 			add(late(), data, foreign)
 		}
